@@ -394,10 +394,7 @@ Section Down.
   Qed.
 End Down.
 
-(* ---------- the three branches of scan_act ---------- *)
-Definition final_delta (e : env) (o : opts) (mn mx : Z) (us : usage) (cap : capacity) (unt tainted : list node) (d0 : Z) : Z :=
-  let d1 := if scale_on_starve o mx us cap unt then Z.max d0 1 else d0 in
-  if scale_on_max_age e o mn unt tainted then Z.max d1 1 else d1.
+(* ---------- the three branches of scan_act (final_delta is defined in SpecScan.v) ---------- *)
 
 Definition no_get (calls : list call) : Prop := forall c, In c calls -> match c with CK (KGet _ _) => False | _ => True end.
 Lemma no_get_app a b : no_get a -> no_get b -> no_get (a ++ b).
